@@ -255,6 +255,17 @@ def extract():
     return out
 
 
+# the unusual characters of the generator's alphabet (harness/props/C12.py draws Q texts, tag names, attribute values
+# and punctuation from it); which of them Python's str.isprintable() rejects is computed by RUNNING Python (a recorded
+# assumption: this is how repr() decides what to escape)
+CHAR_ALPHABET = [0x09, 0x0c, 0x01, 0x1b, 0x7f, 0x85, 0xa0, 0xad, 0x200b, 0x2028, 0xfeff, 0xfffe, 0xd7ff, 0xe9, 0x20ac,
+                 0x1f600, 0x1d11e, 0xe0001, 0xe0020, 0xe007f, 0xf0000, 0x10fffd]
+
+
+def non_printable():
+    return [cp for cp in CHAR_ALPHABET if not chr(cp).isprintable()]
+
+
 def _s(x):
     return '"' + x.replace("\\", "\\\\").replace('"', '\\"') + '"'
 
@@ -318,6 +329,9 @@ def generate():
     w("def jsonPhraseKinds : List String := " + _strs(t["jsonPhraseKinds"]))
     w("def jsonDepKinds : List String := " + _strs(t["jsonDepKinds"]))
     w("def jsonTermKinds : List String := " + _strs(t["jsonTermKinds"]))
+    w("/-- code points of the harness' character alphabet for which `str.isprintable()` is False (repr escapes them) -/")
+    w("def nonPrintable : List Nat := [%s]" % ", ".join(str(cp) for cp in non_printable()))
+    w("def charAlphabet : List Nat := [%s]" % ", ".join(str(cp) for cp in CHAR_ALPHABET))
     w("")
     w("end Pyrealb.Gen.OptionTable")
     return {"Pyrealb/Gen/OptionTable.lean": "\n".join(L) + "\n"}
